@@ -224,6 +224,9 @@ func genCfg(r *Rand, ids []uint32) Cfg {
 		default:
 			d.Addr = netip.AddrPortFrom(netip.AddrFrom4([4]byte{10, byte(r.Intn(3)), 0, byte(1 + r.Intn(200))}), []uint16{60000, 54321, 1, 65535}[r.Intn(4)])
 		}
+		if c.Bcast.IsValid() && c.Bcast.Port() != 0 && r.Intn(6) == 0 {
+			d.Addr = c.Bcast // a controller configured at exactly the broadcast address: still its own endpoint and transport
+		}
 		c.Devices = append(c.Devices, d)
 	}
 	return c
